@@ -299,7 +299,14 @@ def main(argv):
         elif k["status"] != "ok":
             undecided.append("kani harness %s: %s" % (k["harness"], k["status"]))
 
-    obligations = sum(len(r["functions"]) for r in results) + sum(k.get("checks", 0) for k in kres)
+    # a function whose ONLY failing obligations are open findings (known_findings.json, status open) is not claimed as proved
+    # and is not counted: it is listed on its own (open_finding_functions).  Every other obligation of such a function has
+    # still been checked (verus --multiple-errors), and any other failure in it is a failure like any other.
+    failed_fns = set((f["unit"], f["function"]) for f in failures)
+    open_fns = sorted(set((f["unit"], f["function"]) for _, f in known_hits) - failed_fns)
+    n_open = sum(1 for r in results for fn, v in r["functions"].items()
+                 if not v["success"] and any(u == r["unit"] and (fn == g or fn.endswith("::" + g) or g in fn) for u, g in open_fns))
+    obligations = sum(len(r["functions"]) for r in results) + sum(k.get("checks", 0) for k in kres) - n_open
     discharged = sum(1 for r in results for v in r["functions"].values() if v["success"]) + sum(k.get("checks_ok", 0) for k in kres)
     canaries = {}
     for r in results:
@@ -389,6 +396,8 @@ def main(argv):
             "canaries": canaries,
             "undecided": undecided,
             "known_findings_hit": ["%s/%s/%s" % (f["unit"], f["function"], f["kind"]) for _, f in known_hits],
+            "open_finding_functions": ["%s/%s" % uf for uf in open_fns],
+            "open_finding_functions_not_counted": n_open,
             "failed_obligations": ["%s/%s/%s @ %s" % (f["unit"], f["function"], f["kind"], f["at"]) for f in failures],
             "verdict": verdict,
             "unit_notes": {u: UNIT_NOTES.get(u, "") for u in units},
@@ -406,8 +415,9 @@ def main(argv):
     os.makedirs(os.path.join(VERIF, "evidence"), exist_ok=True)
     json.dump(ev, open(os.path.join(VERIF, "evidence", pid + ".json"), "w"), indent=1)
 
-    print("%s %s tier=%s: %d/%d obligations discharged (verus units: %s; kani harnesses: %d), %.1fs" % (
-        pid, verdict, tier, discharged, obligations, ",".join(units), len(kres), wall))
+    print("%s %s tier=%s: %d/%d obligations discharged%s (verus units: %s; kani harnesses: %d), %.1fs" % (
+        pid, verdict, tier, discharged, obligations,
+        (" + %d function(s) under an open finding, not counted" % n_open) if n_open else "", ",".join(units), len(kres), wall))
     for u in undecided:
         print("UNDECIDED: " + u)
     for f in failures:
